@@ -405,6 +405,10 @@ void ConstrainedFDLayout::runOnce(const bool xAxis, const bool yAxis) {
 }
 
 
+#ifdef ADAPTAGRAMS_VERIF
+VerifMakeFeasibleSink verifMakeFeasibleSink = nullptr;
+#endif
+
 // Used for sorting the CompoundConstraints from lowest priority to highest.
 static bool cmpCompoundConstraintPriority(const cola::CompoundConstraint *lhs,
         const cola::CompoundConstraint *rhs)
@@ -738,6 +742,9 @@ void ConstrainedFDLayout::makeFeasible(double xBorder, double yBorder)
                 continue;
             }
 
+#ifdef ADAPTAGRAMS_VERIF
+            unsigned verifAlternative = 0;
+#endif
             while (!alternatives.empty())
             {
                 // Reset subConstraintSatisfiable for new solve.
@@ -802,6 +809,13 @@ void ConstrainedFDLayout::makeFeasible(double xBorder, double yBorder)
                     }
                 }
 
+#ifdef ADAPTAGRAMS_VERIF
+                if (verifMakeFeasibleSink)
+                {
+                    verifMakeFeasibleSink(cc, (int) dim, verifAlternative++,
+                            valid[dim].back(), subConstraintSatisfiable);
+                }
+#endif
                 if (!subConstraintSatisfiable)
                 {
                     // Since we had unsatisfiable constraints we must
